@@ -52,6 +52,31 @@ def norm_body(body):
     return out
 
 
+def canonical_body(fn_args, stmts):
+    """the statements with comparisons oriented one way (`a > b` as `b < a`) and local variables renamed in order of first assignment: the compiled twin is
+    regenerated from kernels.py, so the two may differ by such spellings when only one of them was touched"""
+    stmts = ast.parse('\n'.join(ast.unparse(s) for s in stmts)).body        # fresh copies without parent links
+    params = set(fn_args)
+    order = {}
+
+    class T(ast.NodeTransformer):
+        def visit_Compare(self, n):
+            self.generic_visit(n)
+            if len(n.ops) == 1 and isinstance(n.ops[0], (ast.Gt, ast.GtE)):
+                return ast.Compare(left=n.comparators[0], ops=[ast.Lt() if isinstance(n.ops[0], ast.Gt) else ast.LtE()], comparators=[n.left])
+            return n
+    stmts = [T().visit(s) for s in stmts]
+    for s in stmts:
+        for x in ast.walk(s):
+            if isinstance(x, ast.Name) and isinstance(x.ctx, ast.Store) and x.id not in params and x.id not in order:
+                order[x.id] = 'v%d' % len(order)
+    for s in stmts:
+        for x in ast.walk(s):
+            if isinstance(x, ast.Name) and x.id in order:
+                x.id = order[x.id]
+    return stmts
+
+
 def dump(stmts):
     def ser(n):
         if isinstance(n, ast.AST):
@@ -95,7 +120,7 @@ def rule_twin(chk):
             if m not in cm:
                 chk.violated('compiled-twin', '%s.%s' % (name, m), node=cc, file=CK, func='%s.%s' % (name, m), detail='method missing in the compiled class')
                 continue
-            a, b = dump(norm_body(M.docstring_stripped(pm[m].body))), dump(norm_body(cm[m].body))
+            a, b = dump(canonical_body(M.arg_names(pm[m]), norm_body(M.docstring_stripped(pm[m].body)))), dump(canonical_body(M.arg_names(cm[m]), norm_body(cm[m].body)))
             args_ok = M.arg_names(pm[m]) == M.arg_names(cm[m])
             if a == b and args_ok:
                 chk.holds('compiled-twin', '%s.%s' % (name, m), node=cm[m], file=CK, func='%s.%s' % (name, m), detail='%d statements identical' % len(a))
@@ -543,8 +568,7 @@ def rule_gradient_form(chk, pyk):
                 rhs = ctx.mul(ctx.mul(gd if gd is not None else S.Poly.const(1), want_fn), ctx.var('xij[%d]' % k))
                 if not ctx.simplify(lhs - rhs).is_zero():
                     bad.append('grad[%d] = %s' % (k, compact_poly(got)))
-            ok = not bad and gd is not None and guards[0].test and isinstance(guards[0].test, ast.Compare) and \
-                compact(guards[0].test.left) == 'rij' and isinstance(guards[0].test.ops[0], ast.Gt)
+            ok = not bad and gd is not None and r_positive_test(guards[0].test)
             chk.decide(ok, 'gradient-is-radial', name, node=g, file=KER, func=name + '.gradient',
                        detail_bad='grad W = (dW/dr) x_ij/r requires grad[k]*h*rij == [rij > eps]*dwdq(rij, h)*xij[k] for k = 0, 1, 2; not so for: %s' % '; '.join(bad),
                        detail_ok='grad[k]*h*rij == [rij>eps]*dwdq(rij,h)*xij[k], k = 0, 1, 2')
@@ -557,6 +581,16 @@ def compact_poly(p):
     return s if len(s) < 160 else s[:157] + '...'
 
 
+def r_positive_test(t):
+    """`rij > c` / `c < rij` (c a small non-negative literal), in either spelling"""
+    if not (isinstance(t, ast.Compare) and len(t.ops) == 1):
+        return False
+    l, op, r = t.left, t.ops[0], t.comparators[0]
+    if isinstance(op, (ast.Lt, ast.LtE)):
+        l, r, op = r, l, ast.Gt()
+    return isinstance(op, (ast.Gt, ast.GtE)) and isinstance(l, ast.Name) and l.id == 'rij' and isinstance(r, ast.Constant) and isinstance(r.value, (int, float)) and 0 <= r.value < 1e-6
+
+
 def rule_r0(chk, pyk):
     for name, cls in sorted(pyk.items()):
         for m in ('gradient', 'dwdq', 'gradient_h', 'kernel'):
@@ -567,8 +601,7 @@ def rule_r0(chk, pyk):
                 gi = M.enclosing(d, (ast.If,))
                 ok = False
                 while gi is not None:
-                    t = compact(gi.test)
-                    if t.startswith('rij>') and any(d is x for b in gi.body for x in ast.walk(b)):
+                    if r_positive_test(gi.test) and any(d is x for b in gi.body for x in ast.walk(b)):
                         # other branch yields 0
                         tg = [U(b.targets[0]) for b in gi.body if isinstance(b, ast.Assign)]
                         ok = all(isinstance(b, ast.Assign) and isinstance(b.value, ast.Constant) and float(b.value.value) == 0.0 for b in gi.orelse) and bool(gi.orelse)
@@ -1125,9 +1158,19 @@ def attrs_of(cls, dim):
         raise ValueError(compact(e))
 
     def truth(t):
-        if isinstance(t, ast.Compare) and len(t.ops) == 1 and compact(t.left) in ('dim', 'self.dim') and isinstance(t.comparators[0], ast.Constant):
-            c = t.comparators[0].value
-            return {ast.Eq: dim == c, ast.NotEq: dim != c, ast.Gt: dim > c, ast.GtE: dim >= c, ast.Lt: dim < c, ast.LtE: dim <= c}[type(t.ops[0])]
+        if isinstance(t, ast.Compare) and len(t.ops) == 1:
+            l, op, r = t.left, type(t.ops[0]), t.comparators[0]
+            if isinstance(l, ast.Constant) and compact(r) in ('dim', 'self.dim'):
+                l, r = r, l
+                op = {ast.Gt: ast.Lt, ast.Lt: ast.Gt, ast.GtE: ast.LtE, ast.LtE: ast.GtE}.get(op, op)
+            if compact(l) in ('dim', 'self.dim') and isinstance(r, ast.Constant):
+                c = r.value
+                return {ast.Eq: dim == c, ast.NotEq: dim != c, ast.Gt: dim > c, ast.GtE: dim >= c, ast.Lt: dim < c, ast.LtE: dim <= c}[op]
+        if isinstance(t, ast.BoolOp):
+            vals = [truth(v) for v in t.values]
+            return all(vals) if isinstance(t.op, ast.And) else any(vals)
+        if isinstance(t, ast.UnaryOp) and isinstance(t.op, ast.Not):
+            return not truth(t.operand)
         raise ValueError(compact(t))
 
     def run(stmts):
